@@ -60,6 +60,15 @@ META["C12"] = {
     "technique": "static analysis: call-graph panic inventory + must-dataflow typestate + decision-region enumeration",
 }
 
+META["C02"] = {
+    "level": "Taint/provenance analysis on the MIR of every fun2core function that receives a consumer, plus seeding, traversal and "
+             "table rules; decides the 'never captures' and 'generated names never coincide with user names' clauses structurally "
+             "for all programs. The two capture sites it reports are genuine and listed as known findings.",
+    "design_ref": "DESIGN.md §4 C02 (R-HYG, R-SEED), §3 R-ENUM/R-TRAV",
+    "note": "Partial: semantic equivalence of the translation is not decided. Known findings: capture under let and pattern binders.",
+    "technique": "static analysis: forward taint + backward provenance on MIR aggregates, dominator rules, enum-map extraction, grammar reader",
+}
+
 NOT_APPLICABLE = {
     "C09": "Run-time heap invariant of *generated* code at every statement boundary of every execution; no path property of the "
            "compiler's source corresponds to it and no sound static argument in reach bounds it (DESIGN.md §4 C09/C10).",
@@ -68,5 +77,5 @@ NOT_APPLICABLE = {
 }
 # properties whose checks are not built yet are listed here until their rules exist (kept current by bin/gen-manifest)
 PENDING = "check not built yet in this round; planned rules are in DESIGN.md §4"
-for _p in ["C02", "C04", "C06", "C07", "C08", "C11", "C13", "C14", "C15", "C16", "C19", "C20"]:
+for _p in ["C04", "C06", "C07", "C08", "C11", "C13", "C14", "C15", "C16", "C19", "C20"]:
     NOT_APPLICABLE.setdefault(_p, PENDING)
